@@ -599,6 +599,33 @@ def main():
     ck.cov['distinct_nontrivial'] = tot['proper']
     ck.cov['asymmetric_containment_pairs'] = tot['asym']
     ck.cov['results_whose_derived_attributes_were_read'] = tot['results']
+    # collections with CURVED members (fixed corpus, implementation side): `bounds` is the union of the members' bounds
+    # whatever was read from the same collection before (convex_hull first, geospan first, bounds twice)
+    from geostructures import GeoCircle, GeoEllipse, GeoRing
+    curved_sets = [
+        lambda: [GeoCircle(Coordinate(10.0, 50.0), 40000, dt=to_dt(0, 'utc')), GeoBox(Coordinate(9.9, 50.1), Coordinate(10.1, 49.9), dt=to_dt(H, 'utc'))],
+        lambda: [GeoEllipse(Coordinate(-20.0, -35.0), 60000, 20000, 30, dt=to_dt(0, 'utc')), GeoPoint(Coordinate(-20.0, -35.0), dt=to_dt(2 * H, 'utc')),
+                 GeoRing(Coordinate(-19.0, -35.5), 5000, 30000, dt=to_dt(H, 'utc'))],
+        lambda: [GeoCircle(Coordinate(0.0, 0.0), 1000, dt=to_dt(0, 'utc'))],
+    ]
+    curved_n = 0
+    for mk in curved_sets:
+        for cls in (FeatureCollection, Track):
+            for hist in (['bounds'], ['convex_hull', 'bounds'], ['geospan', 'convex_hull', 'bounds'], ['bounds', 'convex_hull', 'bounds'], ['centroid', 'convex_hull', 'geospan', 'bounds']):
+                coll = cls(mk())
+                bs = [x.bounds for x in mk()]
+                want = (min(b[0] for b in bs), min(b[1] for b in bs), max(b[2] for b in bs), max(b[3] for b in bs))
+                got = None
+                for a in hist:
+                    got = guarded(lambda: getattr(coll, a))
+                curved_n += 1
+                if got != ('Ok', want):
+                    ck.violation({'kind': 'property-fails-on-implementation',
+                                  'case': {'collection': cls.__name__, 'members': [repr(x) for x in mk()], 'reads_in_order': hist,
+                                           'bounds': str(got), 'union_of_member_bounds': want},
+                                  'detail': 'collection.bounds differs from the union of the members\' bounds', 'theorems': 'C18_coll_bounds_*'})
+                    break
+    ck.cov['curved_member_bounds_histories'] = curved_n
     ck.cov['results_with_bounds_different_from_the_source'] = tot['shrunk']
     ck.cov['result_hulls_checked'] = tot['hulls']
     ck.cov['collections_with_attributes_read_before_filtering'] = sum(1 for m in meta if m['spec'].get('pre'))
